@@ -11,12 +11,12 @@ EXPLANATION = ("For every module returned by list_available_algorithms() the dec
                "the allowed values, defaults elsewhere, errors for unknown names / invalid values. Discrete exploration.")
 ASSUMPTIONS = ["values come from per-type representative pools (no symbolic strings)",
                "an 'error' is ValueError/TypeError from the API and SystemExit or an exception from the CLI helper"]
-BOUNDS = {"quick": "14 algorithm modules, subsets of <= 2 parameters, 10 value kinds (incl. an explicit zero and a bool given for a number), API dict form and CLI 'name:value' form",
+BOUNDS = {"quick": "14 algorithm modules, subsets of <= 2 parameters, 11 value kinds (incl. an explicit zero, a bool given for a number and a valid value followed by ':more'), API dict form and CLI 'name:value' form",
           "thorough": "same (exhausted in quick)"}
 OUTSIDE = "arbitrary strings, more than 2 parameters at once"
 CAP_S = {"quick": 600, "thorough": 1800}
 
-KINDS = ["valid", "valid_as_str", "other_allowed", "invalid_value", "wrong_type", "garbage_str", "default_as_str", "zero", "zero_as_str", "subclass"]
+KINDS = ["valid", "valid_as_str", "other_allowed", "invalid_value", "wrong_type", "garbage_str", "default_as_str", "zero", "zero_as_str", "subclass", "extra_colon"]
 
 
 def jobs(tier):
@@ -29,6 +29,12 @@ def jobs(tier):
 def _candidate(pdef, kind):
     """(value, expected) where expected is ('ok', converted) or ('error',)."""
     t, allowed, default = pdef.type, pdef.values, pdef.default_value
+    if kind == "extra_colon":
+        # a valid value followed by ':' and more text (on the command line: 'name:value:more'): never a valid value
+        if t == "str" and not allowed:
+            return _candidate(pdef, "valid")          # a free-form string may contain ':' when given through the API
+        base = "7" if t == "int" else "0.25" if t == "float" else str(allowed[0])
+        return base + ":x", ("error",)
     if kind == "subclass":
         # a bool given for a number (bool is a subclass of int): converted to the declared type itself. (A str subclass given
         # for a string is rejected by the unchanged code as a type error, which the statement allows: not demanded.)
